@@ -57,6 +57,8 @@ def db_keys(dump, name):
     if not m or m.group(4) == "":
         return out
     for item in m.group(4).split(","):
+        if "=" not in item or "@" not in item:
+            raise ValueError("malformed key entry %r in the dump of %s" % (item[:80], name))
         k, rest = item.split("=", 1)
         val, meta = rest.rsplit("@", 1)
         ver, st, opp = meta.split("/")[:3]
